@@ -181,6 +181,8 @@ def make_sched(spec: dict) -> ScheduledTask:
     if spec.get("cron") is not None:
         kw["cron"] = spec["cron"]
         kw["cron_offset"] = make_offset(spec.get("offset"))
+        if spec.get("also_time") is not None:
+            kw["time"] = make_time(spec["also_time"])
     else:
         kw["time"] = make_time(spec["time"])
         if spec.get("offset") is not None:
